@@ -3,7 +3,9 @@ package main
 // Driver: turns abstract events back into calls on a real consumer.
 
 import (
+	"errors"
 	"fmt"
+	"io"
 	"math"
 
 	structform "github.com/elastic/go-structform"
@@ -545,4 +547,141 @@ func runExtCmp(c *Case, tr *Trace) {
 	if consumer == "json" {
 		tr.NumTab = append(numTabFor(a.out), numTabFor(b.out)...)
 	}
+}
+
+// ---------------------------------------------------------------- kind "fault" (C16)
+
+func init() { extraKinds["fault"] = runFault }
+
+// FaultRun is one run with the failure injected at position K.
+type FaultRun struct {
+	K        int    `json:"k"`
+	Reported bool   `json:"reported"` // some call of the sequence returned a non-nil error
+	Same     bool   `json:"same"`     // the returned error is (or wraps) the injected one
+	After    int    `json:"after"`    // events delivered to the visitor after it had failed
+	At       int    `json:"at"`       // 1-based index of the call that reported, 0 if none
+	Outcome  string `json:"outcome"`
+}
+
+// runFault enumerates every fault position of a case.
+//
+//	target enc:     c.Stream -> real encoder of c.Fmt over a sink that fails from its k-th Write on, k = 1..W
+//	target parser:  c.Doc -> real parser of c.Fmt into a visitor that fails at its k-th event, k = 1..E
+//	target adapter: c.Stream (extended events) -> EnsureExtVisitor(plain visitor failing at its k-th event)
+//
+// W and E are measured by a fault-free run first.
+func runFault(c *Case, tr *Trace) {
+	target := c.Sub["target"].(string)
+	var runs []FaultRun
+	guard := func(k int, f func(r *FaultRun)) {
+		r := FaultRun{K: k, Outcome: "ok"}
+		func() {
+			defer func() {
+				if x := recover(); x != nil {
+					r.Outcome = "panic"
+				}
+			}()
+			f(&r)
+		}()
+		runs = append(runs, r)
+	}
+	total := 0
+	switch target {
+	case "enc":
+		api := formats[c.Fmt]
+		encode := func(failAt int) (*sink, int, error) {
+			sk := &sink{failAt: failAt}
+			enc := api.newVisitor(sk, c.Opts)
+			for i := range c.Stream {
+				if err := replayEvent(enc, &c.Stream[i]); err != nil {
+					return sk, i + 1, err
+				}
+			}
+			return sk, 0, nil
+		}
+		sk, _, err := encode(0)
+		if err != nil {
+			// e.g. a non-finite float refused by the JSON encoder: nothing to enumerate
+			tr.Extra = map[string]interface{}{"runs": []FaultRun{}, "total": 0, "skipped": err.Error()}
+			return
+		}
+		total = sk.n
+		for k := 1; k <= total; k++ {
+			guard(k, func(r *FaultRun) {
+				_, at, err := encode(k)
+				r.Reported, r.At = err != nil, at
+				r.Same = err != nil && errors.Is(err, errInjected)
+			})
+		}
+	case "parser":
+		api := formats[c.Fmt]
+		doc := intsToBytes(c.Doc)
+		entry := c.Entry
+		parse := func(failAt int) (*RefRecorder, error) {
+			rec := &RefRecorder{}
+			rec.FailAt = failAt
+			var err error
+			switch entry {
+			case "parse":
+				err = api.parse(append([]byte(nil), doc...), rec)
+			case "reader":
+				_, err = api.parseReader(&chunkReader{chunks: chunksOf(append([]byte(nil), doc...), c.Cuts)}, rec)
+			case "decbytes":
+				d := api.newBytesDecoder(append([]byte(nil), doc...), rec)
+				for i := 0; i < len(doc)+3 && err == nil; i++ {
+					err = d.Next()
+				}
+				if err == io.EOF {
+					err = nil
+				}
+			default:
+				panic("harness: fault entry " + entry)
+			}
+			return rec, err
+		}
+		rec, err := parse(0)
+		if err != nil {
+			tr.Extra = map[string]interface{}{"runs": []FaultRun{}, "total": 0, "skipped": err.Error()}
+			return
+		}
+		total = len(rec.Events)
+		for k := 1; k <= total; k++ {
+			guard(k, func(r *FaultRun) {
+				rec, err := parse(k)
+				r.Reported = err != nil
+				r.Same = err != nil && errors.Is(err, errInjected)
+				r.After = rec.After
+				if err != nil {
+					r.At = 1
+				}
+			})
+		}
+	case "adapter":
+		feed := func(failAt int) (*Recorder, int, error) {
+			rec := &Recorder{FailAt: failAt}
+			v := structform.EnsureExtVisitor(rec)
+			for i := range c.Stream {
+				if err := replayEvent(v, &c.Stream[i]); err != nil {
+					return rec, i + 1, err
+				}
+			}
+			return rec, 0, nil
+		}
+		rec, _, _ := feed(0)
+		total = len(rec.Events)
+		for k := 1; k <= total; k++ {
+			guard(k, func(r *FaultRun) {
+				rec, at, err := feed(k)
+				r.Reported, r.At = err != nil, at
+				r.Same = err != nil && errors.Is(err, errInjected)
+				r.After = rec.After
+			})
+		}
+	default:
+		panic("harness: unknown fault target " + target)
+	}
+	if runs == nil {
+		runs = []FaultRun{}
+	}
+	tr.Extra = map[string]interface{}{"runs": runs, "total": total, "skipped": ""}
 }
